@@ -471,7 +471,9 @@ ModSets == <<
   <<InsC>>, <<AddA, InsB>>, <<InsB>>, <<Mod("addrcpt", "<x@rcpt.test>", "", 0)>>, <<Mod("delrcpt", "<r1@rcpt.test>", "", 0)>>,
   <<Mod("chgfrom", "<b@sender.test>", "", 0)>>, <<Mod("replbody", "replaced body\r\n", "", 0)>> >>
 ModsFor(tab) == IF tab = "main" /\ Full THEN Range(ModSets)
-                ELSE IF tab \in {"main", "lib"} THEN {ModSets[k] : k \in 1..7}
+                ELSE IF tab = "main" THEN {ModSets[k] : k \in 1..7}
+                \* go-milter's server rewrites CRLF inside a header value to LF ("postfix wants LF"): no folded value there
+                ELSE IF tab = "lib" THEN {ModSets[k] : k \in 1..6}
                 ELSE {ModSets[1], ModSets[4]}
 
 AnsFor(tab) == CASE tab \in {"main"} -> AllAns
@@ -495,7 +497,11 @@ Row(tab, conn, utf8, from, nr, hdr, body, fo, srv, net, form, ver, proto) ==
   [sub |-> "milter", tab |-> tab, msgid |-> "verifmsg01", conn |-> conn, utf8 |-> utf8, from |-> from, rcpts |-> Rcpts(nr),
    hdr |-> hdr, body |-> body, place |-> "global", fo |-> fo, srv |-> srv, net |-> net, form |-> form, ver |-> ver, proto |-> proto,
    script |-> Script0(nr, Len(hdr), Len(Chunks(body)))]
-Base(tab, fo) == Row(tab, C4, FALSE, "a@sender.test", 1, Hdr2, "small", fo, "up", "tcp", "inline", 6, <<>>)
+(* the large tables talk to the milter over a unix socket, the session / endpoint tables over TCP (every TCP     *)
+(* connection of the client leaves a port in TIME_WAIT for a minute; tens of thousands of rows would exhaust the  *)
+(* ports of the machine)                                                                                           *)
+Base(tab, fo) == Row(tab, C4, FALSE, "a@sender.test", 1, Hdr2, "small", fo, "up",
+                     IF tab \in {"conn", "net", "srv"} THEN "tcp" ELSE "unix", "inline", 6, <<>>)
 
 ProtoSets == {<<"noconnect">>, <<"nohelo">>, <<"nomail">>, <<"norcpt">>, <<"nobody">>, <<"nohdrs">>, <<"noeoh">>,
               <<"noconnect", "nohelo">>, <<"nohdrs", "noeoh", "nobody">>, <<"nomail", "norcpt">>}
@@ -567,7 +573,8 @@ RandRow(n) ==
       cn == [c0 EXCEPT !.tls = Pick(<<"none", "none", "1.2", "1.3">>, d(5)),
                        !.auth = Pick(<<"", "", "user@sender.test">>, d(6))]
       b == Row("mixed", cn, d(7) % 3 = 0, Pick(<<"a@sender.test", "a@sender.test", "">>, d(8)), nr, hd, bd,
-               Pick(<<"yes", "no", "absent">>, d(9)), "up", Pick(<<"tcp", "unix">>, d(10)), Pick(<<"inline", "directive">>, d(11)),
+               Pick(<<"yes", "no", "absent">>, d(9)), "up", Pick(<<"unix", "unix", "unix", "unix", "unix", "unix", "unix", "unix", "unix", "unix", "unix", "tcp">>, d(10)),
+               Pick(<<"inline", "directive">>, d(11)),
                Pick(<<6, 6, 2>>, d(12)), Pick(RProto, d(13)))
       \* most commands continue, so that the later steps are reached
       an(k) == Pick(RAns, d(k))
